@@ -26,7 +26,8 @@ def factHolds (name : String) : Bool := (facts.lookup name) == some true
 /-- the control-flow facts of the repaired lifecycle (who may touch the listener fields, and in what order) -/
 def lifecycleFactsOK : Bool :=
   ["recoverBarrier", "recoverBarrierFirst", "deferRemoveConn", "deferClose", "loopClosesOwnListener_serve",
-   "loopClosesOwnListener_tlsServe", "handshakeOutsideAcceptLoop", "registersBeforeSpawn", "handshakeInConnGoroutine"].all factHolds
+   "loopClosesOwnListener_tlsServe", "handshakeOutsideAcceptLoop", "registersBeforeSpawn", "handshakeInConnGoroutine",
+   "sharedTypesHavePointerReceivers"].all factHolds
   && stopOrder == ["closeListeners", "waitLoops", "closeConns", "waitConns"]
 
 /-- the model's prediction for a concurrent workload -/
